@@ -1273,3 +1273,34 @@ package fpgo
 //@   invariant nomatch: oldheap(forall(l, 0, _i, arrList[j][l] != arrList[0][i]))
 //@   after this-list: hit[j] == oldheap(CONTAINS(arrList[j], arrList[0][i]))
 //@   after summary: 0 <= matchCount && (matchCount == 0) == forall(k, 1, j+1, !hit[k])
+
+// IntersectionMapByKey: no map -> empty; one map -> a copy; otherwise the keys present in every map, with the first map's values.
+// countMap[x] = number of the maps seen so far that contain x (c0 = that count before the current map).
+//@ func IntersectionMapByKey
+//@   prop C05
+//@   ghost c0 (Array Val Int)
+//@   ensures none: len(inputList) == 0 ==> fresh(r0) && forallv(x, !has(r0, x))
+//@   ensures one: len(inputList) == 1 ==> fresh(r0) && forallv(x, has(r0, x) == has(inputList[0], x)) && forallv(x, has(r0, x) ==> r0[x] == inputList[0][x])
+//@   ensures in-all: len(inputList) >= 2 ==> fresh(r0) && forallv(x, has(r0, x) == forall(l, 0, len(inputList), has(inputList[l], x)))
+//@   ensures first-values: len(inputList) >= 2 ==> forallv(x, has(r0, x) ==> r0[x] == inputList[0][x])
+//@   ensures unchanged: forall(l, 0, len(inputList), unchangedmap(inputList[l]))
+//@ func IntersectionMapByKey loop 0
+//@   invariant copy: fresh(resultMap) && forallv(x, has(resultMap, x) == _visited(x)) && forallv(x, _visited(x) ==> resultMap[x] == inputList[0][x])
+//@ func IntersectionMapByKey loop 1
+//@   invariant maps: fresh(resultMap) && fresh(countMap) && resultMap != countMap && inputLen == len(inputList) && inputLen >= 2
+//@   invariant dom: forallv(x, has(countMap, x) == exists(l, 0, _i, has(inputList[l], x))) && forallv(x, has(resultMap, x) == has(countMap, x))
+//@   invariant count: forallv(x, has(countMap, x) ==> 1 <= countMap[x] && countMap[x] <= _i && ((countMap[x] == _i) == forall(l, 0, _i, has(inputList[l], x))))
+//@   invariant first: forallv(x, has(resultMap, x) && has(inputList[0], x) ==> resultMap[x] == inputList[0][x])
+//@ func IntersectionMapByKey loop 2
+//@   ghostbefore c0 = lamv(x, ite(has(countMap, x), countMap[x], 0))
+//@   invariant maps: fresh(resultMap) && fresh(countMap) && resultMap != countMap && inputLen == len(inputList) && inputLen >= 2 && mapItem == inputList[_i1] && _m == mapItem
+//@   invariant before: forallv(x, 0 <= c0[x] && c0[x] <= _i1 && ((c0[x] == _i1) == forall(l, 0, _i1, has(inputList[l], x))) && ((c0[x] > 0) == exists(l, 0, _i1, has(inputList[l], x))))
+//@   invariant dom: forallv(x, has(countMap, x) == (c0[x] > 0 || _visited(x))) && forallv(x, has(resultMap, x) == has(countMap, x))
+//@   invariant count: forallv(x, has(countMap, x) ==> countMap[x] == c0[x] + ite(_visited(x), 1, 0))
+//@   invariant first: forallv(x, has(resultMap, x) && has(inputList[0], x) ==> resultMap[x] == inputList[0][x])
+//@ func IntersectionMapByKey loop 3
+//@   invariant maps: fresh(resultMap) && fresh(countMap) && resultMap != countMap && inputLen == len(inputList) && inputLen >= 2 && _m == countMap
+//@   invariant counted: forallv(x, has(countMap, x) == exists(l, 0, inputLen, has(inputList[l], x))) && forallv(x, has(countMap, x) ==> 1 <= countMap[x] && countMap[x] <= inputLen && ((countMap[x] == inputLen) == forall(l, 0, inputLen, has(inputList[l], x))))
+//@   invariant pruned: forallv(x, has(resultMap, x) == (has(countMap, x) && !(_visited(x) && countMap[x] < inputLen)))
+//@   invariant first: forallv(x, has(resultMap, x) && has(inputList[0], x) ==> resultMap[x] == inputList[0][x])
+//@ twin IntersectionMapByKey IntersectionMapByKeyForInterface
